@@ -17,7 +17,7 @@ theorem interfaceItemsAll_ok :
         items.foldlM (denStep container ifaces) (s, acc) = some res →
         ∃ newR : List Nat, res.1.next = s.next + newR.length ∧ newR.Pairwise (· < ·) ∧
           (∀ x ∈ newR, st.types.resources.length ≤ x ∧ x < st'.types.resources.length) ∧
-          ∀ (RL : List Nat), RL.length = s.next → ConsE ρ (RL ++ newR) st'.types →
+          ∀ (ρ : Nat → Res) (RL : List Nat), RL.length = s.next → ConsE ρ (RL ++ newR) st'.types →
             RootSim ρ st.types st.root ifaces → Sim ρ st.types st.scope s.binds →
             ExpRel ρ st.types itf.exports acc → (res.2.map (·.1)).Nodup →
             Sim ρ st'.types st'.scope res.1.binds ∧ ExpRel ρ st'.types itf'.exports res.2 := by
@@ -31,7 +31,7 @@ theorem interfaceItemsAll_ok :
     intro container ifaces s acc res hfold
     simp only [List.foldlM_nil, Option.pure_def, Option.some.injEq] at hfold
     subst hfold
-    exact ⟨[], by simp, List.Pairwise.nil, by simp, fun _ _ _ _ hsim hexp _ => ⟨hsim, hexp⟩⟩
+    exact ⟨[], by simp, List.Pairwise.nil, by simp, fun _ _ _ _ _ hsim hexp _ => ⟨hsim, hexp⟩⟩
   | cons i r ih =>
     intro st st' itf itf' h
     rw [interfaceItems_cons] at h
@@ -41,7 +41,7 @@ theorem interfaceItemsAll_ok :
       obtain ⟨st1, itf1⟩ := si
       rw [hstep] at h
       simp only at h
-      obtain ⟨g1, rt1, id1, k1⟩ := ifaceStep_ok (ρ := ρ) hstep
+      obtain ⟨g1, rt1, id1, k1⟩ := ifaceStep_ok hstep
       obtain ⟨g2, rt2, id2, k2⟩ := ih _ _ _ _ h
       refine ⟨g1.trans g2, rt2.trans rt1, id2.trans id1, ?_⟩
       intro container ifaces s acc res hfold
@@ -66,7 +66,7 @@ theorem interfaceItemsAll_ok :
         rcases List.mem_append.mp hx with hx | hx
         · have := hr1 x hx; omega
         · have := hr2 x hx; omega
-      intro RL hRL hcons hrs hsim hexp hnd
+      intro ρ RL hRL hcons hrs hsim hexp hnd
       obtain ⟨more, hmore⟩ := denFold_prefix container ifaces r _ _ h2
       have hnd1 : ((acc ++ out).map (·.1)).Nodup := by
         simp only [hmore, List.map_append] at hnd
@@ -77,9 +77,9 @@ theorem interfaceItemsAll_ok :
       have hcons1 : ConsE ρ (RL ++ newR1) st1.types :=
         ConsE.back (RL' := RL ++ (newR1 ++ newR2)) hcons g2 (fun k idx hk => by
           rw [← List.append_assoc]; exact prefix_append_getElem? _ _ _ _ hk)
-      obtain ⟨hsim1, hexp1⟩ := kk1 RL acc hRL hcons1 hrs hsim hexp hnd1
+      obtain ⟨hsim1, hexp1⟩ := kk1 ρ RL acc hRL hcons1 hrs hsim hexp hnd1
       have hrs1 : RootSim ρ st1.types st1.root ifaces := by rw [rt1]; exact hrs.mono g1
-      exact kk2 (RL ++ newR1) (by simp [hRL, hn1]) (by rw [List.append_assoc]; exact hcons) hrs1 hsim1 hexp1 hnd
+      exact kk2 ρ (RL ++ newR1) (by simp [hRL, hn1]) (by rw [List.append_assoc]; exact hcons) hrs1 hsim1 hexp1 hnd
 
 /-- an interface declaration, any items -/
 theorem interfaceDeclAll_ok {st st' : St} {id : Option Str} {items : List Item} {i : Nat}
@@ -89,7 +89,7 @@ theorem interfaceDeclAll_ok {st st' : St} {id : Option Str} {items : List Item} 
       denoteItems container ifaces next items = some (next', out) →
       ∃ newR : List Nat, next' = next + newR.length ∧ newR.Pairwise (· < ·) ∧
         (∀ x ∈ newR, st.types.resources.length ≤ x ∧ x < st'.types.resources.length) ∧
-        ∀ (RL : List Nat), RL.length = next → ConsE ρ (RL ++ newR) st'.types →
+        ∀ (ρ : Nat → Res) (RL : List Nat), RL.length = next → ConsE ρ (RL ++ newR) st'.types →
           RootSim ρ st.types st.root ifaces → (out.map (·.1)).Nodup →
           HK [] [] st'.types (kb st'.types) (.instance i) (renT ρ (.instance (Forest.ofList out))) ∧
           ∃ itf, st'.types.interfaces[i]? = some itf ∧ ExpRel ρ st'.types itf.exports out := by
@@ -98,7 +98,7 @@ theorem interfaceDeclAll_ok {st st' : St} {id : Option Str} {items : List Item} 
   split at h
   · rename_i st1 itf hitems
     cases h
-    obtain ⟨g1, rt1, _, k1⟩ := interfaceItemsAll_ok (ρ := ρ) _ _ _ _ _ hitems
+    obtain ⟨g1, rt1, _, k1⟩ := interfaceItemsAll_ok _ _ _ _ _ hitems
     have g2 := Grow.addInterface { st1 with scope := st.scope } itf
     refine ⟨g1.trans g2, rt1, rfl, ?_⟩
     intro container ifaces next next' out hden
@@ -108,9 +108,9 @@ theorem interfaceDeclAll_ok {st st' : St} {id : Option Str} {items : List Item} 
     cases hr
     obtain ⟨newR, hn, hp, hrg, kk⟩ := k1 container ifaces { next := next } [] (s', out) hres
     refine ⟨newR, hn, hp, fun x hx => ⟨(hrg x hx).1, (hrg x hx).2⟩, ?_⟩
-    intro RL hRL hcons hrs hnd
+    intro ρ RL hRL hcons hrs hnd
     have hcons1 : ConsE ρ (RL ++ newR) st1.types := ConsE.back hcons g2 (fun _ _ hk => hk)
-    obtain ⟨_, hexp⟩ := kk RL hRL hcons1 hrs (fun n => by simp [alGet, Scope.get]; trivial) trivial hnd
+    obtain ⟨_, hexp⟩ := kk ρ RL hRL hcons1 hrs (fun n => by simp [alGet, Scope.get]; trivial) trivial hnd
     have hi : (Elab.addInterface { st1 with scope := st.scope } itf).2 = st1.types.interfaces.length := rfl
     refine ⟨?_, itf, by simp [Elab.addInterface], hexp.mono g2⟩
     intro T' F he hF
